@@ -43,6 +43,8 @@ pub trait TypeOps {
     fn roundtrip(&self, rng: &mut Rng, fuel: i64) -> RtOut;
     /// encode n values of this type as n arguments; returns bytes and the abstract values
     fn encode_gen(&self, rng: &mut Rng, fuel: i64, n: usize) -> Result<(Vec<u8>, Vec<RValue>), String>;
+    /// append one generated value of this type to a builder (heterogeneous messages)
+    fn arg_into(&self, b: &mut IDLBuilder, rng: &mut Rng, fuel: i64) -> Result<RValue, String>;
     /// decode one argument at this type (surplus arguments are skipped by `done`)
     fn decode(&self, bytes: &[u8], cfg: &DecoderConfig) -> DecOut;
 }
@@ -137,6 +139,16 @@ impl<T: Corpus> TypeOps for Ops<T> {
             Err(p) => Err(format!("panic|{}", p.sig())),
             Ok(Err(e)) => Err(format!("error|{e}")),
             Ok(Ok(b)) => Ok((b, models)),
+        }
+    }
+    fn arg_into(&self, b: &mut IDLBuilder, rng: &mut Rng, fuel: i64) -> Result<RValue, String> {
+        let mut fuel = fuel;
+        let v = T::gen(rng, &mut fuel);
+        let m = v.model();
+        match catch(|| b.arg(&v).map(|_| ())) {
+            Err(p) => Err(format!("panic|{}", p.sig())),
+            Ok(Err(e)) => Err(format!("error|{e}")),
+            Ok(Ok(())) => Ok(m),
         }
     }
     fn decode(&self, bytes: &[u8], cfg: &DecoderConfig) -> DecOut {
